@@ -2800,13 +2800,13 @@ class Env(cabc.MutableMapping):
         """
         if key in local:
             return local[key]
-        try:
-            # Not ``self[key]``: inside an alias overlay that would capture
-            # the overlay's value, and restoring it into the thread-local
-            # layer on exit makes it outlive the overlay.
-            return self._getitem_below_overlays(key)
-        except KeyError:
-            return NotImplemented
+        # Nothing thread-local before the swap: on exit the override is simply
+        # dropped, and reads fall through to the shared value, the registered
+        # default or "unset" exactly as before.  Capturing ``self[key]``
+        # instead turned a default into an explicitly set value that children
+        # then received, raised on exit for a typed variable whose default is
+        # None, and captured an alias overlay's value.
+        return NotImplemented
 
     @contextlib.contextmanager
     def swap(self, other=None, overlay=None, **kwargs):
